@@ -113,7 +113,7 @@ func (w *World) RunUnits(sel func(name string) bool) []*UnitResult {
 	var lemmas []*ssa.Function
 	for _, p := range w.pkgs {
 		for name, m := range p.Members {
-			if f, ok := m.(*ssa.Function); ok && strings.HasPrefix(name, "lemma_") && sel(name) {
+			if f, ok := m.(*ssa.Function); ok && strings.HasPrefix(name, "lemma_") && sel(name) && w.contracts[f.String()] == nil {
 				lemmas = append(lemmas, f)
 			}
 		}
